@@ -1,5 +1,6 @@
 import LyModel.Base
 import LyModel.Text.Utf8
+import LyModel.Generated.XpConsts
 /-!
 # The XPath tokenizer as `ly_path_parse` uses it (`xpath.c: lyxp_expr_parse`, `reparse = 0`)
 
@@ -131,11 +132,17 @@ def nameTestAfter (s : Bytes) (len : Nat) : Option (Bytes × Bytes) :=
     | some n2 => some (s.take (len + 1 + n2), r.drop n2)
   | after => some (s.take len, after)
 
-/-- NameTest at the head of `s` (the final `else` branch of the lexer): token text and rest -/
-def nameTest (s : Bytes) : Option (Bytes × Bytes) :=
+/-- NameTest at the head of `s` (the final `else` branch of the lexer): token text and rest; both variants of the C code -/
+def nameTestWith (starNoPrefix : Bool) (s : Bytes) : Option (Bytes × Bytes) :=
   match firstLen s with
   | none => none
-  | some len => nameTestAfter s len
+  | some len =>
+    -- `if ((expr_str[parsed] != '*') && (expr_str[parsed + tok_len] == ':'))` (repair of F352): a first part `*` is a NameTest on its
+    -- own and never a prefix; the pinned lexer read `*:name` and `*:*` as one NameTest
+    if starNoPrefix && s.head? == some 42 then some (s.take len, s.drop len) else nameTestAfter s len
+
+/-- the variant of the source at hand: `Generated.XpConsts.starNoPrefix` is read off `lyxp_expr_parse` (xpath.c) -/
+def nameTest (s : Bytes) : Option (Bytes × Bytes) := nameTestWith Generated.XpConsts.starNoPrefix s
 
 /-- one token at the head of `s` (no leading whitespace); `prevOk` = a NameTest may start here, i.e. there is no
     previous token or it is one of `[` `=` `/` (the other members of the C condition are rejected tokens). -/
